@@ -149,19 +149,52 @@ Proof.
   cbn [map flat_map]. rewrite (sublines_piece p Hp), (IH Hr). reflexivity.
 Qed.
 
-(* a leading run of line breaks is one token that holds no segment *)
-Lemma sublines_break s : break_run s = true -> sublines s = [].
-Proof. intros H. unfold sublines. rewrite (break_stripped s H). reflexivity. Qed.
+(* leading text without a brace (a header line, blank lines, anything that cannot hold a marker) is one
+   token that holds no segment *)
+Lemma no_brace_drop_crlf : forall n s, length s <= n -> no_brace s = true -> no_brace (drop_crlf s) = true.
+Proof.
+  induction n as [|n IH]; intros s Hl H.
+  - destruct s; [reflexivity|cbn in Hl; lia].
+  - destruct s as [|b t]; [reflexivity|]. cbn [no_brace forallb] in H. apply andb_true_iff in H as [Hb Ht].
+    cbn [length] in Hl.
+    assert (Hkeep : no_brace (b :: drop_crlf t) = true).
+    { cbn [no_brace forallb]. rewrite Hb. apply (IH t); [lia|exact Ht]. }
+    destruct (Byte.byte_eq_dec b x0d) as [->|Hne]; [|rewrite drop_crlf_cons by exact Hne; exact Hkeep].
+    destruct t as [|c t']; [reflexivity|].
+    destruct (Byte.byte_eq_dec c x0a) as [->|Hc].
+    + cbn [drop_crlf]. cbn [no_brace forallb] in Ht. apply andb_true_iff in Ht as [_ Ht']. apply (IH t'); [cbn [length] in Hl; lia|exact Ht'].
+    + assert (E : drop_crlf (x0d :: c :: t') = x0d :: drop_crlf (c :: t')) by (destruct c; try reflexivity; contradiction).
+      rewrite E. exact Hkeep.
+Qed.
 
-Lemma markers_lead lead pairs : break_run lead = true -> forallb pair_ok pairs = true ->
+Lemma no_brace_filter f s : no_brace s = true -> no_brace (filter f s) = true.
+Proof.
+  induction s as [|b t IH]; intros H; [reflexivity|]. cbn [no_brace forallb] in H. apply andb_true_iff in H as [Hb Ht].
+  cbn [filter]. destruct (f b); [cbn [no_brace forallb]; rewrite Hb; exact (IH Ht)|exact (IH Ht)].
+Qed.
+
+Lemma markers_no_brace s : no_brace s = true -> markers s = [].
+Proof.
+  intros H. unfold markers. pose proof (markers_from_no_brace s [] 0 H (fun _ _ => I)) as P. rewrite app_nil_r in P. exact P.
+Qed.
+
+Lemma sublines_lead s : no_brace s = true -> sublines s = [].
+Proof.
+  intros H. unfold sublines.
+  assert (Hn : no_brace (drop_lf (drop_crlf s)) = true).
+  { unfold drop_lf. apply no_brace_filter. apply (no_brace_drop_crlf (length s) s (le_n _) H). }
+  rewrite (markers_no_brace _ Hn). reflexivity.
+Qed.
+
+Lemma markers_lead lead pairs : no_brace lead = true -> forallb pair_ok pairs = true ->
   markers (lead ++ text2 pairs) = offsets2 (length lead) pairs.
 Proof.
   intros Hl Hp. unfold markers.
-  rewrite (markers_from_no_brace lead (text2 pairs) 0 (break_no_brace lead Hl) (fun _ _ => I)).
+  rewrite (markers_from_no_brace lead (text2 pairs) 0 Hl (fun _ _ => I)).
   apply markers_text2. exact Hp.
 Qed.
 
-Lemma next_ref_lead lead pairs final : lead <> [] -> break_run lead = true -> forallb pair_ok pairs = true ->
+Lemma next_ref_lead lead pairs final : lead <> [] -> no_brace lead = true -> forallb pair_ok pairs = true ->
   length (lead ++ text2 pairs) < max_token ->
   next_ref (lead ++ text2 pairs) final = RTok lead (text2 pairs).
 Proof.
@@ -188,7 +221,7 @@ Proof.
 Qed.
 
 Theorem scan_segments2 lead pairs chunks final :
-  break_run lead = true -> forallb pair_ok pairs = true -> length (lead ++ text2 pairs) < max_token ->
+  no_brace lead = true -> forallb pair_ok pairs = true -> length (lead ++ text2 pairs) < max_token ->
   concat chunks = lead ++ text2 pairs ->
   scan chunks final = (lead_tokens lead ++ map piece pairs, final_err final).
 Proof.
@@ -203,7 +236,7 @@ Proof.
 Qed.
 
 Theorem read_of_segments2 preset opts lead pairs chunks final :
-  break_run lead = true -> forallb pair_ok pairs = true -> length (lead ++ text2 pairs) < max_token ->
+  no_brace lead = true -> forallb pair_ok pairs = true -> length (lead ++ text2 pairs) < max_token ->
   concat chunks = lead ++ text2 pairs ->
   read_model preset opts chunks final = read_segments preset opts (map fst pairs) final.
 Proof.
@@ -211,7 +244,7 @@ Proof.
   rewrite (scan_segments2 lead pairs chunks final Hl Hok Hlen Hc).
   rewrite flat_map_app, (flat_map_sublines2 pairs Hok).
   assert (E : flat_map sublines (lead_tokens lead) = []).
-  { destruct lead; [reflexivity|]. cbn [lead_tokens flat_map]. rewrite (sublines_break _ Hl). reflexivity. }
+  { destruct lead; [reflexivity|]. cbn [lead_tokens flat_map]. rewrite (sublines_lead _ Hl). reflexivity. }
   rewrite E. reflexivity.
 Qed.
 
@@ -225,8 +258,8 @@ Theorem line_breaks_irrelevant preset opts lead1 lead2 pairs1 pairs2 chunks1 chu
   read_model preset opts chunks1 final = read_model preset opts chunks2 final.
 Proof.
   intros E L1 L2 P1 P2 B1 B2 C1 C2.
-  rewrite (read_of_segments2 preset opts lead1 pairs1 chunks1 final L1 P1 B1 C1).
-  rewrite (read_of_segments2 preset opts lead2 pairs2 chunks2 final L2 P2 B2 C2).
+  rewrite (read_of_segments2 preset opts lead1 pairs1 chunks1 final (break_no_brace _ L1) P1 B1 C1).
+  rewrite (read_of_segments2 preset opts lead2 pairs2 chunks2 final (break_no_brace _ L2) P2 B2 C2).
   rewrite E. reflexivity.
 Qed.
 
@@ -235,3 +268,56 @@ Example runs_exist :
   break_run [x0a; x0d; x0a; x0a] = true /\
   break_run [x0d] = false /\ break_run [x0d; x0d; x0a] = false.
 Proof. repeat split; reflexivity. Qed.
+
+(* ---- C15: the entries of the error list sit at the segments' positions in the input ---- *)
+(* a text of segments (well-formed as segments: a marker first, no further brace, no line break - their
+   content may be anything, malformed elements included), separated by any runs of line breaks, read to the
+   end: when some segment fails, the result is exactly the list of the failing segments' entries, each
+   computed with the segment's 1-based ordinal in the input, in input order *)
+Theorem errors_at_segment_positions preset opts lead pairs chunks :
+  no_brace lead = true -> forallb pair_ok pairs = true -> length (lead ++ text2 pairs) < max_token ->
+  concat chunks = lead ++ text2 pairs ->
+  errors_of (map fst pairs) 0 <> [] ->
+  read_model preset opts chunks FEOF = RErrors (errors_of (map fst pairs) 0).
+Proof.
+  intros Hl Hok Hlen Hc Hne.
+  rewrite (read_of_segments2 preset opts lead pairs chunks FEOF Hl Hok Hlen Hc).
+  unfold read_segments.
+  pose proof (read_lines_errors (map fst pairs) 0 empty_tags []) as He.
+  destruct (read_lines (map fst pairs) 0 empty_tags []) as [tgs errs]. cbn [snd rev app] in He. subst errs.
+  cbn [final_err]. destruct (errors_of (map fst pairs) 0) as [|e r]; [contradiction|reflexivity].
+Qed.
+
+(* and when no segment fails, the result is the verdict of file validation on the assembled message *)
+Theorem no_segment_error_means_file_validation preset opts lead pairs chunks :
+  no_brace lead = true -> forallb pair_ok pairs = true -> length (lead ++ text2 pairs) < max_token ->
+  concat chunks = lead ++ text2 pairs ->
+  errors_of (map fst pairs) 0 = [] ->
+  exists m, (read_model preset opts chunks FEOF = ROk m /\ verify m = Accept) \/
+            (exists f e, read_model preset opts chunks FEOF = RErrors [RFileValidation f e] /\ verify m = Reject f e) \/
+            read_model preset opts chunks FEOF = RErrors [RPanic] \/ read_model preset opts chunks FEOF = RErrors [RStuck].
+Proof.
+  intros Hl Hok Hlen Hc He.
+  rewrite (read_of_segments2 preset opts lead pairs chunks FEOF Hl Hok Hlen Hc).
+  unfold read_segments.
+  pose proof (read_lines_errors (map fst pairs) 0 empty_tags []) as Hr.
+  destruct (read_lines (map fst pairs) 0 empty_tags []) as [tgs errs]. cbn [snd rev app] in Hr. subst errs.
+  cbn [final_err]. rewrite He.
+  set (m := {| m_tags := tgs; m_opts := match opts with Some _ => opts | None => preset end |}).
+  exists m. destruct (verify m) as [|f e| |] eqn:Ev; auto.
+  right. left. exists f, e. auto.
+Qed.
+
+(* C04: text before the first marker that holds no brace is ignored - the read is that of the segments alone,
+   whatever that text is (and it is the only part of such a text that is ignored: every segment is parsed) *)
+Theorem leading_text_is_ignored preset opts lead pairs chunks chunks0 final :
+  no_brace lead = true -> forallb pair_ok pairs = true ->
+  length (lead ++ text2 pairs) < max_token ->
+  concat chunks = lead ++ text2 pairs -> concat chunks0 = text2 pairs ->
+  read_model preset opts chunks final = read_model preset opts chunks0 final.
+Proof.
+  intros Hl Hok Hlen Hc Hc0.
+  rewrite (read_of_segments2 preset opts lead pairs chunks final Hl Hok Hlen Hc).
+  assert (Hlen0 : length ([] ++ text2 pairs) < max_token) by (cbn [app]; rewrite app_length in Hlen; lia).
+  rewrite (read_of_segments2 preset opts [] pairs chunks0 final eq_refl Hok Hlen0 Hc0). reflexivity.
+Qed.
